@@ -992,6 +992,35 @@ func sparseCheckStrings() [][]byte {
 			}
 		}
 	}
+	// values whose 64-bit (32-bit) words ADD UP to a multiple of 2^64 (2^32): w in one word and 2^W - w in
+	// another (they cancel when a zero test folds the words with + instead of |), for three unstructured w
+	for _, W := range []uint{64, 32} {
+		nw := int(256 / W)
+		for a := 0; a < nw; a++ {
+			for b := 0; b < nw; b++ {
+				if a == b || (W == 32 && (a+b)%3 != 0) {
+					continue
+				}
+				for _, f := range factors {
+					for _, w0 := range []int64{0x0102030405, 1, 0x7f3c1d5b} {
+						done := false
+						for dw := int64(0); dw < 64 && !done; dw++ {
+							w := big.NewInt(w0 + dw)
+							if W == 32 {
+								w.And(w, big.NewInt(0xffffffff))
+							}
+							cval := new(big.Int).Lsh(w, W*uint(a))
+							cval.Add(cval, new(big.Int).Lsh(new(big.Int).Sub(new(big.Int).Lsh(big.NewInt(1), W), w), W*uint(b)))
+							if cval.BitLen() > 255 {
+								break
+							}
+							done = try(cval, f)
+						}
+					}
+				}
+			}
+		}
+	}
 	return out
 }
 
